@@ -1033,7 +1033,6 @@ c16h!(c16_fifo_listener_insert_anyaction, FifoD, 0, FifoConfig::default(), CB_LI
 // LRU: lookups and handle drops take the write lock
 c16h!(c16_lru_listener_insert, LruD, 1, LRU_CFG, CB_LISTENER, OP_INSERT, Some(0));
 c16h!(c16_lru_drop_insert, LruD, 1, LRU_CFG, CB_DROP, OP_INSERT, Some(0));
-c16h!(c16_lru_drop_get, LruD, 1, LRU_CFG, CB_DROP | CB_LISTENER, OP_GET, Some(1));
 c16h!(c16_lru_listener_clear, LruD, 1, LRU_CFG, CB_LISTENER, OP_CLEAR, Some(0));
 c16h!(c16_sieve_listener_insert, SieveD, 2, SieveConfig {}, CB_LISTENER, OP_INSERT, Some(0));
 c16h!(c16_sieve_drop_insert, SieveD, 2, SieveConfig {}, CB_DROP, OP_INSERT, Some(0));
